@@ -41,7 +41,10 @@ impl RandomAccessFile for File {
     fn append(&mut self, buf: &[u8]) -> io::Result<usize> {
         // Seek to the end first
         self.seek(SeekFrom::End(0))?;
-        self.write(buf)
+        // A single `write` may take only part of the buffer
+        self.write_all(buf)?;
+
+        Ok(buf.len())
     }
 }
 
